@@ -10,6 +10,10 @@ func ikeDecodeDecrypt(b []byte, h *message.IKEHeader, sa *security.IKESAKey, rol
 	return ike.DecodeDecrypt(b, h, sa, role)
 }
 
+func ikeEncodeEncrypt(m *message.IKEMessage, sa *security.IKESAKey, role message.Role) ([]byte, error) {
+	return ike.EncodeEncrypt(m, sa, role)
+}
+
 // akaWire: a well-formed EAP-AKA' packet produced without the library, attributes in arbitrary order
 func (g *Gen) akaWire() []byte {
 	var attrs [][]byte
